@@ -124,8 +124,10 @@ class GCPMapping:
         return (
             "odc.geo._gcp.GCPMapping",
             str(self._crs),
-            self._wld,
-            self._pix,
+            # plain lists: dask derives the token from `str()` of this tuple
+            # and numpy abbreviates (8 digits, "..." for large arrays)
+            self._wld.tolist(),
+            self._pix.tolist(),
         )
 
     @staticmethod
